@@ -1,6 +1,7 @@
 package checks
 
 import (
+	"bytes"
 	"fmt"
 	"math/big"
 	"math/rand"
@@ -58,8 +59,57 @@ func c04points(rng *rand.Rand) (names []string, pts []*big.Int) {
 	return
 }
 
+// c04otherQ: two configurations that differ only in Q (an exported field) are alive at the same time. Each one's proofs
+// must be the reference's proofs for that Q, must verify under it, and openings must stay correct in whatever order
+// the two configurations are first used.
+func c04otherQ(c *mon.Ctx, env *Env, rng *rand.Rand, firstOther bool) {
+	pool := NewPool(rng, 4)
+	c2 := *env.Conf
+	c2.Q = ElemFromRef(pool.P[0], nil, false)
+	r2 := *env.Ref
+	r2.Q = pool.P[0]
+	v, _ := makePoly(rng, 0)
+	lv := toFr(v)
+	comm := env.Conf.Commit(lv)
+	cref, _ := ElemToRef(&comm)
+	z := new(big.Int).Add(big.NewInt(256), randBig(rng, ref.R))
+	z.Mod(z, ref.R)
+	y := ref.EvalPoly(ref.Interpolate(v), z)
+	type side struct {
+		name string
+		conf *ipa.IPAConfig
+		rc   *ref.Config
+	}
+	sides := []side{{"published Q", env.Conf, env.Ref}, {"other Q", &c2, &r2}}
+	if firstOther {
+		sides[0], sides[1] = sides[1], sides[0]
+	}
+	for _, sd := range sides {
+		pr, err := ipa.CreateIPAProof(common.NewTranscript("c04q"), sd.conf, comm, lv, FrFromBig(z))
+		if err != nil {
+			c.Fail("prover-error/other-Q", "CreateIPAProof failed: "+err.Error(), nil)
+			continue
+		}
+		var buf bytes.Buffer
+		pr.Write(&buf)
+		rp, _ := sd.rc.ProveIPA(ref.NewTranscript("c04q"), cref, v, z)
+		if !bytes.Equal(buf.Bytes(), rp.Bytes()) {
+			c.Fail("proof-differs-from-reference/"+sd.name, fmt.Sprintf("with two configurations alive that differ in Q, the proof made under the %s is not the reference's proof for that Q (first used: %s)", sd.name, sides[0].name), nil)
+		}
+		ok, verr := ipa.CheckIPAProof(common.NewTranscript("c04q"), sd.conf, comm, pr, FrFromBig(z), FrFromBig(y))
+		if !ok || verr != nil {
+			c.Fail("correct-result-rejected/"+sd.name, fmt.Sprintf("CheckIPAProof rejects p(point) under the %s (ok=%v err=%v)", sd.name, ok, verr), nil)
+		}
+		c.Count("openings_with_two_configurations_alive", 1)
+		c.Eval("two-configurations|"+sd.name+fmt.Sprintf("|first=%v", sd.name == sides[0].name), true)
+	}
+}
+
 func runC04(c *mon.Ctx) {
 	env := GetEnv()
+	// the first IPA calls of some processes are made with a configuration whose Q is not the published one
+	c.Case("two-configurations/first", func() { c04otherQ(c, env, c.Rand("two-configurations/first"), c.Shard%2 == 1) })
+	defer c.Case("two-configurations/last", func() { c04otherQ(c, env, c.Rand("two-configurations/last"), c.Shard%2 == 0) })
 	npoly := c.Pick(24, 600)
 	refBudget := c.Pick(3, 10)
 	for p := 0; p < npoly; p++ {
